@@ -199,7 +199,7 @@ Print Assumptions pinned_runs_twice.
    code) is reachable in the repaired model, ends with everything returned, and meets the hypotheses used above *)
 Definition cfg_ex : config :=
   mkCfg (plan_of [mkAtt 1 WCommit [1; 2]; mkAtt 0 WAbort [2; 3]; mkAtt 2 WCommit []]) false [false; true] 2 true 1
-        (fun x => match x with ILeaf _ => 2 | _ => 1 end).
+        (fun x => match x with ILeaf _ => 2 | _ => 1 end) (fun x => match x with IInc 2 => true | _ => false end).
 Definition sc_ex : script := mkScript 0 false 0 2 [(1, 1)] None 2 1 1.
 
 Example c17_nonvacuous :
